@@ -531,6 +531,16 @@ def digest_of_msg(ctx, an, e, msg_param):
     state = P.call(name="chain_update", full="Keccak256", args=[P.call(name="new", full="Keccak256", args=[]), M])
     if P.match(es, state) is not None:
         return "state"
+    # `let mut h = Keccak256::new(); h.update(msg);` - the hasher local after exactly one update with the message
+    if es.k == "mutated" and isinstance(es.a[1], int):
+        l = es.a[1]
+        d = shapes.def_expr(an, l)
+        if d is not None and P.match(d, P.call(name="new", full="Keccak256", args=[])) is not None:
+            muts = shapes.mutations(an, l)
+            if len(muts) == 1 and muts[0]["kind"] == "mutcall":
+                t = muts[0]["term"]
+                if t.callee and t.callee.name == "update" and len(t.args) == 2 and P.match(an.operand_expr(t.args[1], muts[0]["bb"], muts[0]["idx"]), M) is not None:
+                    return "state"
     # Digest::new_with_prefix(msg) is documented as new().chain_update(msg)
     if P.match(es, P.call(name="new_with_prefix", full="Keccak256", args=[M])) is not None:
         return "state"
@@ -787,8 +797,8 @@ def run(ctx, report):
     from common import Only
     from rules import c02
     # "over exactly the pairs the decoded record then reports": duplicate keys would be collapsed before the signature is checked
-    c02.run(ctx, Only(report, {"KEYS": "KEYS"}))
+    c02._own_run(ctx, Only(report, {"KEYS": "KEYS"}))
     # "a byte string or text is accepted only if ..": the text is that record's text form (exact prefix handling)
     from rules import c12
-    c12.run(ctx, Only(report, {"PREFIX": "TEXT-PREFIX"}))
+    c12._own_run(ctx, Only(report, {"PREFIX": "TEXT-PREFIX"}))
 
